@@ -21,7 +21,6 @@ package statesync
 // real code). The oracle is evaluated on the journal of the run and encodes the statement of C14.
 
 import (
-	"bytes"
 	"context"
 	"crypto/sha256"
 	"encoding/hex"
@@ -40,7 +39,6 @@ import (
 	"github.com/tendermint/tendermint/libs/log"
 	"github.com/tendermint/tendermint/p2p"
 	tmstate "github.com/tendermint/tendermint/proto/tendermint/state"
-	ssproto "github.com/tendermint/tendermint/proto/tendermint/statesync"
 	tmversion "github.com/tendermint/tendermint/proto/tendermint/version"
 	sm "github.com/tendermint/tendermint/state"
 	"github.com/tendermint/tendermint/types"
@@ -313,9 +311,9 @@ func (p *c14Peer) SendEnvelope(e p2p.Envelope) bool {
 	return true
 }
 func (p *c14Peer) TrySendEnvelope(e p2p.Envelope) bool { return p.SendEnvelope(e) }
-func (p *c14Peer) Send(byte, []byte) bool    { return true }
-func (p *c14Peer) TrySend(byte, []byte) bool { return true }
-func (p *c14Peer) String() string            { return string(p.id) }
+func (p *c14Peer) Send(byte, []byte) bool              { return true }
+func (p *c14Peer) TrySend(byte, []byte) bool           { return true }
+func (p *c14Peer) String() string                      { return string(p.id) }
 
 type c14Call struct {
 	kind  string // offer apply info
@@ -353,8 +351,8 @@ func (a *c14App) ApplySnapshotChunkSync(req abci.RequestApplySnapshotChunk) (*ab
 
 type c14Query struct{ w *c14World }
 
-func (a *c14Query) Error() error                                   { return nil }
-func (a *c14Query) EchoSync(string) (*abci.ResponseEcho, error)    { return &abci.ResponseEcho{}, nil }
+func (a *c14Query) Error() error                                { return nil }
+func (a *c14Query) EchoSync(string) (*abci.ResponseEcho, error) { return &abci.ResponseEcho{}, nil }
 func (a *c14Query) QuerySync(abci.RequestQuery) (*abci.ResponseQuery, error) {
 	return &abci.ResponseQuery{}, nil
 }
@@ -1025,9 +1023,9 @@ func c14Check(j []c14Ev, truth c14Truth) (key, what string, diags []c14Diag) {
 	rejPeer := map[string]int{}
 	rejFmt := map[uint32]bool{}
 	rejSnap := map[string]bool{}
-	srcs := map[string]map[string]bool{} // snapshot key -> peers that advertised it while not rejected and are still not rejected
-	gone := map[string]bool{}            // "snapshot key|peer": the peer was removed (disconnected) and has not advertised that snapshot since
-	escaped := map[string]bool{}         // peer was a sender of a sender-rejected snapshot while disconnected
+	srcs := map[string]map[string]bool{}   // snapshot key -> peers that advertised it while not rejected and are still not rejected
+	gone := map[string]bool{}              // "snapshot key|peer": the peer was removed (disconnected) and has not advertised that snapshot since
+	escaped := map[string]bool{}           // peer was a sender of a sender-rejected snapshot while disconnected
 	allSrc := map[string]map[string]bool{} // snapshot key -> every peer that ever advertised it (validly or after escaping a rejection)
 	arrs := map[string]*c14Arr{}
 	var cur *c14Attempt
@@ -1400,9 +1398,6 @@ func c14SortedKeys(m map[string]int64) []string {
 	sort.Strings(ks)
 	return ks
 }
-
-var _ = bytes.Equal
-var _ = ssproto.ChunkRequest{}
 
 // c14TempDir: the chunk queues' temp dir. A run creates and removes a directory and a file per chunk; on a
 // loaded disk the metadata syscalls dominate the run time, so a memory file system is used when there is one.
